@@ -22,6 +22,8 @@ pub struct Cfg {
     pub validate_paths: usize,
     pub cross_check: bool,
     pub wall_budget_s: f64,
+    /// per-query limit for branch feasibility checks (an undecided branch is explored: sound)
+    pub feas_timeout_s: f64,
 }
 
 impl Cfg {
@@ -35,6 +37,7 @@ impl Cfg {
             validate_paths: 3,
             cross_check: true,
             wall_budget_s: 600.0,
+            feas_timeout_s: 5.0,
         }
     }
 }
@@ -110,6 +113,11 @@ pub struct PathState {
     solver: Solver,
     solver2: Solver,
     pub fallback_used: u64,
+    lin_cache: HashMap<u32, bool>,
+    pub lin_stage_hits: u64,
+    /// fork on "denominator == 0" (IEEE-faithful) or assume denominators non-zero (recorded)
+    pub fork_div_zero: bool,
+    pub assumed_nonzero: u64,
     /// decision log for harness introspection: (cond id, value)
     pub log: Vec<(u32, bool)>,
     want_pc_model: bool,
@@ -173,9 +181,29 @@ impl PathState {
     }
 
     /// build query text for  (slice of PC) ∧ extra
-    fn query_text(&mut self, extra: &[(u32, bool)], full: bool) -> (String, bool, bool, Vec<u32>) {
+    fn cond_is_linear(&mut self, c: u32) -> bool {
+        if let Some(&b) = self.lin_cache.get(&c) {
+            return b;
+        }
+        let mut em = Emit::new(&self.arena);
+        em.visit_cond(c);
+        let b = !em.nonlinear && !em.has_nonfinite;
+        self.lin_cache.insert(c, b);
+        b
+    }
+
+    fn query_text(&mut self, extra: &[(u32, bool)], full: bool, lin_only: bool) -> (String, bool, bool, Vec<u32>) {
         let seeds: Vec<u32> = extra.iter().map(|x| x.0).collect();
-        let pcs = if full { self.pc.clone() } else { self.slice(&seeds) };
+        let mut pcs = if full { self.pc.clone() } else { self.slice(&seeds) };
+        if lin_only {
+            let mut keep = vec![];
+            for (c, v) in pcs.into_iter() {
+                if self.cond_is_linear(c) {
+                    keep.push((c, v));
+                }
+            }
+            pcs = keep;
+        }
         let mut em = Emit::new(&self.arena);
         for (c, _) in pcs.iter().chain(extra.iter()) {
             em.visit_cond(*c);
@@ -193,14 +221,94 @@ impl PathState {
         (body, em.nonlinear, em.has_nonfinite, vars)
     }
 
+    /// full-path query whose inequality atoms are tightened by an absolute margin `delta`, so
+    /// that the model stays on the same side of every branch after rounding to doubles
+    fn check_robust(&mut self, extra: &[(u32, bool)], delta: f64, diversify: bool) -> (Verdict, HashMap<String, f64>) {
+        let pcs = self.pc.clone();
+        let mut em = Emit::new(&self.arena);
+        for (c, _) in pcs.iter().chain(extra.iter()) {
+            em.visit_cond(*c);
+        }
+        if em.has_nonfinite {
+            return (Verdict::Unknown, HashMap::new());
+        }
+        let mut body = em.preamble();
+        let d = real_lit(delta);
+        for (c, v) in pcs.iter().chain(extra.iter()) {
+            let line = match (&self.arena.conds[*c as usize], *v) {
+                (CNode::Lt(a, b), true) | (CNode::Le(a, b), true) => format!("(assert (<= (+ {} {}) {}))\n", em.nref_pub(*a), d, em.nref_pub(*b)),
+                (CNode::Lt(a, b), false) | (CNode::Le(a, b), false) => format!("(assert (<= (+ {} {}) {}))\n", em.nref_pub(*b), d, em.nref_pub(*a)),
+                (_, true) => format!("(assert {})\n", em.cond_str(*c)),
+                (_, false) => format!("(assert (not {}))\n", em.cond_str(*c)),
+            };
+            body.push_str(&line);
+        }
+        if diversify {
+            // generic (non-degenerate) tape functions: value_k = B + s * r_k with pseudo-random r_k,
+            // offset B and scale s >= 1e-4 chosen by the solver
+            body.push_str("(declare-const divB Real)\n(declare-const divS Real)\n(assert (>= divS (/ 1.0 10000.0)))\n");
+            let mut h: u64 = 0x243F6A8885A308D3;
+            for &v in em.used_vars.iter() {
+                if self.arena.vars[v as usize].tape.is_some() {
+                    h ^= h << 13;
+                    h ^= h >> 7;
+                    h ^= h << 17;
+                    let r = ((h >> 11) as f64 / (1u64 << 53) as f64) * 2.0 - 1.0;
+                    let r = (r * 1024.0).round() / 1024.0;
+                    body.push_str(&format!("(assert (= v{} (+ divB (* divS {}))))\n", v, real_lit(r)));
+                }
+            }
+        }
+        let names: Vec<String> = em.used_vars.iter().map(|v| format!("v{}", v)).collect();
+        let nl = em.nonlinear;
+        let to = self.cfg.query_timeout_s;
+        let (mut v, mut m) = self.solver.check(&body, nl, to.min(3.0), &names);
+        if v == Verdict::Unknown {
+            let (v2, m2) = self.solver2.check(&body, nl, to, &names);
+            v = v2;
+            m = m2;
+        }
+        let mut out = HashMap::new();
+        for (k, val) in m {
+            if let Some(idx) = k.strip_prefix('v').and_then(|s| s.parse::<usize>().ok()) {
+                out.insert(self.arena.vars[idx].name.clone(), val);
+            }
+        }
+        (v, out)
+    }
+
+    /// proof attempt against the linear part of the path condition only (dropping conjuncts is sound
+    /// for unsat verdicts; any other verdict is inconclusive)
+    fn refuted_by_linear_part(&mut self, extra: &[(u32, bool)]) -> bool {
+        if self.pc.iter().all(|(c, _)| self.lin_cache.get(c) == Some(&true)) && !self.pc.is_empty() {
+            return false; // nothing would be dropped: the full query decides
+        }
+        let (body, nl, nonfinite, _vars) = self.query_text(extra, false, true);
+        if nonfinite {
+            return false;
+        }
+        let (v, _) = self.solver.check(&body, nl, 2.0, &[]);
+        if v == Verdict::Unsat {
+            self.lin_stage_hits += 1;
+        }
+        v == Verdict::Unsat
+    }
+
     fn check(&mut self, extra: &[(u32, bool)], full: bool, model: bool) -> (Verdict, HashMap<String, f64>, usize, bool) {
-        let (body, nl, nonfinite, vars) = self.query_text(extra, full);
+        let to = self.cfg.query_timeout_s;
+        self.check_t(extra, full, model, to)
+    }
+
+    fn check_t(&mut self, extra: &[(u32, bool)], full: bool, model: bool, to: f64) -> (Verdict, HashMap<String, f64>, usize, bool) {
+        if !full && !model && self.refuted_by_linear_part(extra) {
+            return (Verdict::Unsat, HashMap::new(), 0, false);
+        }
+        let (body, nl, nonfinite, vars) = self.query_text(extra, full, false);
         if nonfinite {
             self.notes.push("query mentions a non-finite constant: inconclusive".into());
             return (Verdict::Unknown, HashMap::new(), body.len(), nl);
         }
         let names: Vec<String> = if model { vars.iter().map(|v| format!("v{}", v)).collect() } else { vec![] };
-        let to = self.cfg.query_timeout_s;
         let (mut v, mut m) = self.solver.check(&body, nl, to.min(3.0), &names);
         if v == Verdict::Unknown {
             // portfolio: the other z3 generation often decides what the first one does not
@@ -274,7 +382,8 @@ pub fn decide(c: u32) -> bool {
             if pos >= st.cfg.max_decisions {
                 std::panic::panic_any(CutPath(format!("decision cap {} reached", st.cfg.max_decisions)));
             }
-            let (vt, _, _, _) = st.check(&[(c, true)], false, false);
+            let ft = st.cfg.feas_timeout_s;
+            let (vt, _, _, _) = st.check_t(&[(c, true)], false, false, ft);
             match vt {
                 Verdict::Unsat => {
                     st.n_forced += 1;
@@ -284,7 +393,7 @@ pub fn decide(c: u32) -> bool {
                     if vt == Verdict::Unknown {
                         st.n_unknown_feas += 1;
                     }
-                    let (vf, _, _, _) = st.check(&[(c, false)], false, false);
+                    let (vf, _, _, _) = st.check_t(&[(c, false)], false, false, ft);
                     match vf {
                         Verdict::Unsat => {
                             if vt == Verdict::Unknown {
@@ -312,6 +421,36 @@ pub fn decide(c: u32) -> bool {
         st.log.push((c, v));
         v
     })
+}
+
+/// `eqz` is the condition "denominator == 0".  Returns true if the denominator can be non-zero, in
+/// which case "denominator != 0" is added to the path condition without forking; false if it is forced to zero.
+pub fn assume_nonzero(eqz: u32) -> bool {
+    with_st(|st| {
+        if eqz == C_FALSE {
+            return true;
+        }
+        if eqz == C_TRUE {
+            return false;
+        }
+        if let Some(&v) = st.memo.get(&eqz) {
+            return !v;
+        }
+        let ft = st.cfg.feas_timeout_s;
+        let (v, _, _, _) = st.check_t(&[(eqz, false)], false, false, ft);
+        if v == Verdict::Unsat {
+            st.memo.insert(eqz, true);
+            return false;
+        }
+        st.pc.push((eqz, false));
+        st.memo.insert(eqz, false);
+        st.assumed_nonzero += 1;
+        true
+    })
+}
+
+pub fn set_fork_div_zero(b: bool) {
+    with_st(|st| st.fork_div_zero = b)
 }
 
 /// Add an assumption to the current path (harness-side precondition).
@@ -385,6 +524,16 @@ pub fn prove(name: &str, c: u32, strong_neg: Option<u32>) {
                     }
                 }
                 if !got {
+                    for (delta, div) in [(1e-6, true), (1e-9, true), (1e-6, false), (1e-9, false)] {
+                        let (vr, mr) = st.check_robust(&[(c, false)], delta, div);
+                        if vr == Verdict::Sat {
+                            rec.model = mr;
+                            got = true;
+                            break;
+                        }
+                    }
+                }
+                if !got {
                     let (v3, m3, _, _) = st.check(&[(c, false)], true, true);
                     if v3 == Verdict::Sat {
                         rec.model = m3;
@@ -398,6 +547,23 @@ pub fn prove(name: &str, c: u32, strong_neg: Option<u32>) {
         }
         rec.solver_s = st.solver.seconds + st.solver2.seconds - t0;
         st.obligations.push(rec);
+    })
+}
+
+/// Does the path condition entail `c`?  (unknown counts as "no")
+pub fn entails(c: u32) -> bool {
+    with_st(|st| {
+        if c == C_TRUE {
+            return true;
+        }
+        if c == C_FALSE {
+            return false;
+        }
+        if let Some(&v) = st.memo.get(&c) {
+            return v;
+        }
+        let (v, _, _, _) = st.check(&[(c, false)], false, false);
+        v == Verdict::Unsat
     })
 }
 
@@ -471,6 +637,10 @@ pub fn run_path(cfg: &Cfg, tape: Vec<bool>, body: &(dyn Fn() + Sync), want_pc_mo
         solver,
         solver2,
         fallback_used: 0,
+        lin_cache: HashMap::new(),
+        lin_stage_hits: 0,
+        fork_div_zero: true,
+        assumed_nonzero: 0,
         log: vec![],
         want_pc_model,
         pc_model: None,
@@ -505,6 +675,19 @@ pub fn run_path(cfg: &Cfg, tape: Vec<bool>, body: &(dyn Fn() + Sync), want_pc_mo
             let tapes = st.tapes_from_model(&m);
             st.pc_model = Some((m, tapes));
         }
+    }
+    if std::env::var("SYMX_PATHLOG").is_ok() {
+        let mut out = format!("--- path {} cut={:?} infeasible={} panic={:?}\n", short_tape(&st.decisions), res.cut, res.infeasible, res.panic_msg);
+        for (c, v) in &st.log {
+            out.push_str(&format!("   [{}] {}\n", if *v { "T" } else { "F" }, st.arena.cshow(*c, 3)));
+        }
+        for o in &st.obligations {
+            out.push_str(&format!("   ob {} {:?}\n", o.name, o.status));
+        }
+        for n in &st.notes {
+            out.push_str(&format!("   note {}\n", n));
+        }
+        eprintln!("{}", out);
     }
     res.n_decisions = st.decisions.len();
     res.decisions = st.decisions;
